@@ -608,6 +608,18 @@ fn record_to_proto(record: Record) -> proto::Record {
     }
 }
 
+/// Verification hook: the real wire codec (constructor is private).
+#[cfg(libp2p_verif)]
+pub(crate) fn verif_codec<A, B>(max_packet_size: usize) -> Codec<A, B> {
+    Codec::new(max_packet_size)
+}
+
+/// Verification hook: the `ttl` the real `record_to_proto` puts on the wire.
+#[cfg(libp2p_verif)]
+pub(crate) fn verif_record_ttl_on_wire(record: Record) -> u32 {
+    record_to_proto(record).ttl
+}
+
 /// Creates an `io::Error` with `io::ErrorKind::InvalidData`.
 fn invalid_data<E>(e: E) -> io::Error
 where
